@@ -173,6 +173,10 @@ class SimulatedDbFailure(RuntimeError):
 def _fake_next():
     sim = _CUR[0]
     if sim.db_fault:
+        if getattr(sim, 'db_fault_after', 0) > 0:
+            sim.db_fault_after -= 1  # the data base goes down in the middle of the dispatch: the first requests are served
+            sim.runid_counter += 1
+            return sim.runid_counter
         sim.db_fault_hits += 1
         raise SimulatedDbFailure('simulated data base failure in db.next()')
     sim.runid_counter += 1
@@ -997,6 +1001,8 @@ class Sim:
             F._jobs or any(n.get('todo') for n in self.nodes.values())
         ):
             evs.append(['tick-dbfault'])
+            if len(F._jobs) + sum(1 for n in self.nodes.values() if n.get('todo')) > 1:
+                evs.append(['tick-dbfault', 1])  # ... going down after the first run id of this dispatch was handed out
         if self.reloads_used < cfg.reloads and self.farm_quiet():
             evs.append(['reload'])
         seen = collections.Counter()
@@ -1035,10 +1041,12 @@ class Sim:
                 self.faults_used += 1
                 self.db_fault_hits = 0
                 self.db_fault = True
+                self.db_fault_after = int(ev[1]) if len(ev) > 1 else 0
                 try:
                     self._tick(rec)
                 finally:
                     self.db_fault = False
+                    self.db_fault_after = 0
                     rec['db_fault_hits'] = self.db_fault_hits
             elif kind == 'reply':
                 self._reply(ev, rec)
